@@ -228,7 +228,7 @@ theorem ex2EmField_described : Described2 ex2EmField true :=
     (mem2 _ _ (ex2EmItem_side 1 (by decide)) (ex2EmItem_side 2 (by decide)))
 
 theorem ex2St_described : Described2 ex2St false := by
-  refine Described2.struct "st" none none ex2StKids ?_ ?_ ⟨rfl, rfl, rfl, trivial⟩ rfl (fun _ h => nomatch h)
+  refine Described2.struct "st" none none ex2StKids ?_ ?_ ⟨rfl, rfl, rfl, trivial⟩ (fun _ h => nomatch h)
   · intro m hm
     simp only [ex2StKids, List.mem_cons, List.mem_nil_iff, or_false] at hm
     rcases hm with rfl | rfl | rfl | rfl
@@ -241,7 +241,7 @@ theorem ex2St_described : Described2 ex2St false := by
 
 theorem ex2Hdr_described : Described2 ex2Hdr false :=
   Described2.struct "hdr" none (some 4) [mc (u8 "n" 7)] (mem1 _ (described2_byte "n" none 7 (by decide) (by decide)))
-    (namesOk1 _) trivial rfl (fun bs h => by cases h; exact ⟨by decide, rfl⟩)
+    (namesOk1 _) trivial (fun bs h => by cases h; exact ⟨by decide, rfl⟩)
 
 theorem ex2TailItem_described (id v : Int) (h0 : 0 ≤ id) (h1 : id < 256) (h2 : 0 ≤ v) (h3 : v < 256) :
     ∀ m ∈ ex2TailItem id v, Described2 m.c m.mid :=
@@ -300,5 +300,30 @@ example : decodeMessage (some 5) (Comps.toParams (MComps.cs exBs)) [0xAA, 0xBB, 
   C01_roundtrip_bytesize 5 exBs
     (mem2 _ _ (Described2.minmaxMid ex2S ex2S_ok) (described2_byte "n" none 7 (by decide) (by decide))) (by decide)
     (namesOk2 _ _ (by decide)) rfl rfl (by decide) none _ (Except.eq_ok_of_toOption (by decide +kernel))
+
+/-! a terminated MIN-MAX parameter as the LAST parameter of a nested structure that is itself not last: the structure inherits
+    the flag (`MComps.lastMid`): request [sid; in : STRUCTURE { k; s : MIN-MAX (terminated) }; y] → 22 | 05 | AA BB 00 | 77 -/
+def ex3In : List MComp := [mc (u8 "k" 5), { c := Comp.ofMinMaxMid ex2S, mid := true }]
+def ex3 : List MComp :=
+  [mc (Comp.ofObjConst ⟨"sid", none, none, none, true, 8, .uint32⟩ (.int 0x22) false),
+   { c := Comp.ofValue "in" none (DComp.structO none (MComps.cs ex3In)), mid := true }, mc (u8 "y" 0x77)]
+example : MComps.lastMid ex3In = true := rfl
+example : (encodeMessage none (Comps.toParams (MComps.cs ex3)) (.dict (Comps.values (MComps.cs ex3))) none true).toOption
+    = some ([0x22, 0x05, 0xAA, 0xBB, 0x00, 0x77], 0) := by decide +kernel
+theorem ex3_described : ∀ m ∈ ex3, DescribedTop none m.c m.mid := by
+  intro m hm
+  simp only [ex3, List.mem_cons, List.mem_nil_iff, or_false] at hm
+  rcases hm with rfl | rfl | rfl
+  · exact DescribedTop.nested _ _ (Described2.const _ _ _ (by simp [Obj.ok, Obj.encOk, Obj.sizeOk]) (by simp [Obj.inRange]))
+  · exact DescribedTop.nested _ _ (Described2.struct "in" none none ex3In
+      (mem2 _ _ (described2_byte "k" none 5 (by decide) (by decide)) (Described2.minmaxMid ex2S ex2S_ok))
+      (namesOk2 _ _ (by decide)) ⟨rfl, trivial⟩ (fun _ h => nomatch h))
+  · exact DescribedTop.nested _ _ (described2_byte "y" none 0x77 (by decide) (by decide))
+example : decodeMessage none (Comps.toParams (MComps.cs ex3)) [0x22, 0x05, 0xAA, 0xBB, 0x00, 0x77] true
+    = .ok (.dict (Comps.pair (MComps.cs ex3)).val, 6) :=
+  C01_roundtrip_nested2_whole ex3 none ex3_described (by decide)
+    (by simp [Comps.namesOk, ex3, MComps.cs, mc, Comp.name, Param.name, Comp.ofObjConst, Obj.toConstParam, Comp.ofValue, u8,
+      Comp.ofObjValue, Obj.toParam])
+    ⟨rfl, rfl, trivial⟩ rfl _ (by decide +kernel) (Except.eq_ok_of_toOption (by decide +kernel))
 
 end OdxVerif.Codec
